@@ -344,6 +344,35 @@ theorem sortL_rank (c : List α) (k : Nat) (hk : k < (nums M c).length) :
   rw [hlen] at hos
   exact ⟨(sortL c)[k], x, List.getElem?_eq_getElem hks, hx, hos.perm hnp⟩
 
+/-- … and at a position from the number of numbers on, it is a NaN (`np.argsort` puts them last) -/
+theorem sortL_rank_nan (c : List α) (k : Nat) (hk : (nums M c).length ≤ k) (hkc : k < c.length) :
+    ∃ a, (sortL c)[k]? = some a ∧ isNaN a = true := by
+  have perm : (sortL c).Perm c := List.mergeSort_perm c leNaNLast
+  have pw : (sortL c).Pairwise (fun p q => leNaNLast p q = true) :=
+    List.pairwise_mergeSort (leNaNLast_trans M) (leNaNLast_total M) c
+  have hnp : (nums M (sortL c)).Perm (nums M c) := perm.filterMap M.val
+  have hks : k < (sortL c).length := by rw [perm.length_eq]; exact hkc
+  have hsplit : sortL c = (sortL c).take k ++ (sortL c)[k] :: (sortL c).drop (k + 1) := by
+    rw [List.getElem_cons_drop, List.take_append_drop]
+  have hlen : ((sortL c).take k).length = k := by rw [List.length_take]; omega
+  refine ⟨(sortL c)[k], List.getElem?_eq_getElem hks, ?_⟩
+  cases ha : M.val (sortL c)[k] with
+  | none => exact isNaN_of_none M ha
+  | some x =>
+    exfalso
+    rw [hsplit, List.pairwise_append] at pw
+    obtain ⟨_, _, cross⟩ := pw
+    have h1 : ∀ p ∈ (sortL c).take k, ∃ y, M.val p = some y ∧ True := by
+      intro p hp
+      have hpa := cross p hp _ (List.mem_cons_self)
+      cases hpv : M.val p with
+      | none => rw [leNaNLast_none_left M hpv ha] at hpa; cases hpa
+      | some y => exact ⟨y, rfl, trivial⟩
+    have n1 := (nums_all M (fun _ => True) _ h1).1
+    have : (nums M (sortL c)).length = (nums M c).length := hnp.length_eq
+    rw [hsplit, nums_append, nums_cons_some M _ ha, List.length_append, List.length_cons, n1, hlen] at this
+    omega
+
 theorem sortL_length (c : List α) : (sortL c).length = c.length := (List.mergeSort_perm c leNaNLast).length_eq
 
 /-- **MEDIAN as coded** (`vals[sort_index[N//2]]` for an odd number `N` of observations, `0.5 * (vals[sort_index[N/2-1]] +
@@ -373,6 +402,16 @@ theorem middle_formula (c : List α) (hnum : c.length / 2 < (nums M c).length) :
     · simp only [middle, hN, hpos, hev, if_false, if_true, ga, gb]
     · rw [M.val_mul _ _ _ _ M.val_half (M.val_add _ _ _ _ hby hax)]
       congr 1; ring
+
+/-- `MEDIAN` of an odd number of observations whose central rank falls on a NaN (half of them or more are NaN) is NaN -/
+theorem middle_nan (c : List α) (hodd : c.length % 2 = 1) (hnum : (nums M c).length ≤ c.length / 2) :
+    ∃ r, middle c = .ok r ∧ isNaN r = true := by
+  have hN := sortL_length c
+  have hpos : c.length ≠ 0 := by omega
+  obtain ⟨a, ha, hnan⟩ := sortL_rank_nan M c (c.length / 2) hnum (by omega)
+  have ga : (sortL c).getD (c.length / 2) nan = a := by rw [List.getD_eq_getElem?_getD, ha]; rfl
+  have h2 : ¬ (c.length % 2 = 0) := by omega
+  exact ⟨a, by simp only [middle, hN, hpos, h2, if_false, ga], hnan⟩
 
 /-- a vector without NaN: every rank falls on a number -/
 theorem nums_length_of_noNaN (c : List α) (h : ∀ a ∈ c, isNaN a = false) : (nums M c).length = c.length := by
